@@ -976,6 +976,57 @@ Definition locktime2 (p : pset2) : N :=
   if (0 <? h) && negb time_only then h
   else if 0 <? t then t else match g_fallback p with Some l => l | None => 0 end.
 
+(* ---------- Updater.AddInputs (one argument) / Pset.addInput, Updater.AddInWitnessUtxo ---------- *)
+(* InputArgs.toPartialInput; the txid is given in internal byte order.  Global.TxModifiable is not
+   modelled: the harness builds its packets with psetv2.New, which allows adding inputs. *)
+Definition new_pin2 (txid : bytes) (index seq hlock tlock : N) : pin2 :=
+  mk_pin2 empty_pin txid index (if seq =? 0 then u32max else seq) tlock hlock
+          0 None None None 0 None None None [] [] None [] [] [] [] [].
+
+(* the loop of addInput over the existing inputs: (time, height, hasSigs), None = ErrInInvalidLocktime *)
+Fixpoint lock_walk (l : list pin2) (t h : N) (has : bool) : option (N * N * bool) :=
+  match l with
+  | [] => Some (t, h, has)
+  | x :: r =>
+      let xt := q_tlock x in
+      let xh := q_hlock x in
+      let time_only := negb (xt =? 0) && (xh =? 0) in
+      let height_only := (xt =? 0) && negb (xh =? 0) in
+      let h1 := if time_only then 0 else h in
+      if time_only && (t =? 0) then None else
+      let t1 := if height_only then 0 else t in
+      if height_only && (h1 =? 0) then None else
+      let t2 := if negb (xt =? 0) && negb (t1 =? 0) then N.max t1 xt else t1 in
+      let h2 := if negb (xh =? 0) && negb (h1 =? 0) then N.max h1 xh else h1 in
+      lock_walk r t2 h2 (has || nonempty (pi_sigs (q_base x)))
+  end.
+
+(* the lock-time guard: a new input must not change Locktime() once signatures exist *)
+Definition add_input_lock_ok (p : pset2) (i : pin2) : bool :=
+  if (q_hlock i =? 0) && (q_tlock i =? 0) then true
+  else match lock_walk (q_ins p) (q_tlock i) (q_hlock i) false with
+       | None => false
+       | Some (t, h, has) =>
+           let l0 := match g_fallback p with Some l => l | None => 0 end in
+           let l1 := if negb (t =? 0) then t else l0 in
+           let l2 := if negb (h =? 0) then h else l1 in
+           negb (has && negb (locktime2 p =? l2))
+       end.
+
+Definition add_input2 (p : pset2) (i : pin2) : pset2 * rstat :=
+  if negb (nonempty (q_txid i)) then (p, StErr)
+  else if existsb (fun x => bytes_eqb (q_txid x) (q_txid i) && (q_index x =? q_index i)) (q_ins p) then (p, StErr)
+  else if negb (add_input_lock_ok p i) then (p, StErr)
+  else let p' := mk_pset2 (g_txversion p) (g_fallback p) (g_nscalars p) (q_ins p ++ [i]) (q_outs p) in
+       if sanity2 p' then (p', StOk) else (p, StErr).
+
+Definition add_witness_utxo2 (p : pset2) (k : nat) (o : txout) : pset2 * rstat :=
+  match nth_error (q_ins p) k with
+  | None => (p, StErr)
+  | Some _ => let p' := with_in2 p k (on_base (set_wu (Some o))) in
+              if sanity2 p' then (p', StOk) else (p, StErr)
+  end.
+
 (* elementsutil.ValueToBytes *)
 Definition value_to_bytes (v : N) : bytes := x01 :: be_enc 8 v.
 
